@@ -677,10 +677,21 @@ func (h *hmapType) enumerateWith(fi *core.FuncInfo, cl *hmapClassifier, mode str
 	// `evictFor(m)` / `growIfNeeded()` is judged as if it were written in place
 	primitive := map[string]bool{"chain": true, "unchain": true, "remove": true, "rehash": true, "clear": true, "put": true, "add": true, "_add": true,
 		"overflowed": true, "hash": true, "Size": true, "IsEmpty": true, "IsFull": true}
+	// order-list methods written on the header entry (this.header.linkFirst(e), this.header.moveLast(e)):
+	// followed with the header substituted for their receiver
+	onField := newInliner(h.p, fi, func(fn *types.Func) bool { return primitive[fn.Name()] })
 	var inlineBody func(call *ast.CallExpr) *ast.BlockStmt
 	inlineBody = func(call *ast.CallExpr) *ast.BlockStmt {
 		sel, ok := call.Fun.(*ast.SelectorExpr)
 		if !ok || primitive[sel.Sel.Name] {
+			return nil
+		}
+		if fsel, ok := ast.Unparen(sel.X).(*ast.SelectorExpr); ok {
+			if rid, ok := ast.Unparen(fsel.X).(*ast.Ident); ok && rid.Name == cl.recv && cl.linkRoles(sel.Sel) == nil && cl.linkKind(sel.Sel) == "" {
+				if b := onField.Body(call); b != nil {
+					return b
+				}
+			}
 			return nil
 		}
 		if id, ok := ast.Unparen(sel.X).(*ast.Ident); !ok || id.Name != cl.recv {
@@ -798,6 +809,14 @@ func (h *hmapType) enumerateWith(fi *core.FuncInfo, cl *hmapClassifier, mode str
 			if c, ok := constVals[obj]; ok {
 				return c
 			}
+			// first, forced := m.atFirst(), m.forced(): a local defined once from a mode-dependent value
+			if as, i := findDef(obj); as != nil && len(as.Rhs) == len(as.Lhs) && i < len(as.Rhs) {
+				if _, isIx := ast.Unparen(as.Rhs[i]).(*ast.IndexExpr); !isIx {
+					if c := modeConst(as.Rhs[i], depth+1); c != nil {
+						return c
+					}
+				}
+			}
 			if as, i := findDef(obj); as != nil && len(as.Rhs) == 1 {
 				if ix, ok := ast.Unparen(as.Rhs[0]).(*ast.IndexExpr); ok {
 					entry, linfo, found, decided := tableEntry(ix, depth)
@@ -820,7 +839,105 @@ func (h *hmapType) enumerateWith(fi *core.FuncInfo, cl *hmapClassifier, mode str
 					return constant.MakeBool(!constant.BoolVal(c))
 				}
 			}
+		case *ast.CallExpr:
+			// a predicate of the mode (func (m PUT_MODE) atFirst() bool { return m&1 == 1 }): its single
+			// return expression with receiver and parameters at their constant values
+			if tv, ok := info.Types[v.Fun]; ok && tv.IsType() && len(v.Args) == 1 {
+				return modeConst(v.Args[0], depth+1)
+			}
+			var fid *ast.Ident
+			var recvE ast.Expr
+			switch f := ast.Unparen(v.Fun).(type) {
+			case *ast.Ident:
+				fid = f
+			case *ast.SelectorExpr:
+				fid, recvE = f.Sel, f.X
+			}
+			if fid == nil {
+				return nil
+			}
+			fn, _ := info.Uses[fid].(*types.Func)
+			if fn == nil {
+				return nil
+			}
+			hf := h.p.FuncOf(fn)
+			if hf == nil || hf.Decl.Body == nil || len(hf.Decl.Body.List) != 1 || hf.Pkg != fi.Pkg {
+				return nil
+			}
+			rs, ok := hf.Decl.Body.List[0].(*ast.ReturnStmt)
+			if !ok || len(rs.Results) != 1 {
+				return nil
+			}
+			saved := map[types.Object]constant.Value{}
+			var bound []types.Object
+			bind := func(o types.Object, e ast.Expr) bool {
+				c := modeConst(e, depth+1)
+				if c == nil || o == nil {
+					return false
+				}
+				if old, had := constVals[o]; had {
+					saved[o] = old
+				}
+				constVals[o] = c
+				bound = append(bound, o)
+				return true
+			}
+			okAll := true
+			if recvE != nil && hf.Decl.Recv != nil && len(hf.Decl.Recv.List) == 1 && len(hf.Decl.Recv.List[0].Names) == 1 {
+				if _, isPkg := info.Uses[identOf(recvE)].(*types.PkgName); !isPkg {
+					okAll = bind(info.Defs[hf.Decl.Recv.List[0].Names[0]], recvE)
+				}
+			}
+			k := 0
+			for _, f := range hf.Decl.Type.Params.List {
+				for _, nm := range f.Names {
+					if okAll && k < len(v.Args) {
+						okAll = bind(info.Defs[nm], v.Args[k])
+					}
+					k++
+				}
+			}
+			var res constant.Value
+			if okAll {
+				res = modeConst(rs.Results[0], depth+1)
+			}
+			for _, o := range bound {
+				if old, had := saved[o]; had {
+					constVals[o] = old
+				} else {
+					delete(constVals, o)
+				}
+			}
+			return res
 		case *ast.BinaryExpr:
+			switch v.Op {
+			case token.LAND, token.LOR:
+				a, b := modeConst(v.X, depth+1), modeConst(v.Y, depth+1)
+				if a != nil && a.Kind() == constant.Bool {
+					if constant.BoolVal(a) == (v.Op == token.LOR) {
+						return a
+					}
+					if b != nil && b.Kind() == constant.Bool {
+						return b
+					}
+				}
+				return nil
+			case token.LSS, token.LEQ, token.GTR, token.GEQ:
+				a, b := modeConst(v.X, depth+1), modeConst(v.Y, depth+1)
+				if a != nil && b != nil && a.Kind() == constant.Int && b.Kind() == constant.Int {
+					return constant.MakeBool(constant.Compare(a, v.Op, b))
+				}
+				return nil
+			case token.AND, token.OR, token.XOR, token.ADD, token.SUB, token.MUL, token.REM, token.AND_NOT:
+				a, b := modeConst(v.X, depth+1), modeConst(v.Y, depth+1)
+				if a != nil && b != nil && a.Kind() == constant.Int && b.Kind() == constant.Int {
+					if v.Op == token.REM && constant.Sign(b) == 0 {
+						return nil
+					}
+					return constant.BinaryOp(a, v.Op, b)
+				}
+				return nil
+			}
 			if v.Op == token.EQL || v.Op == token.NEQ {
 				a, b := modeConst(v.X, depth+1), modeConst(v.Y, depth+1)
 				if a != nil && b != nil && a.Kind() == b.Kind() {
